@@ -13,8 +13,8 @@ H.append({"name":"H_whitelist","tiers":Q,"scale":"b2","bounds":"whitelisted appl
 H.append({"name":"H_whitelist","tiers":Q,"scale":"b2","bounds":"patches written through the model codecs: 4 subsets plain, 2 optimized",
   "param_sets":[{"ka":2,"kb":3,"mask":m,"opt":0,"comp":c} for m in (2,5,10,15) for c in (1,2)]+[{"ka":2,"kb":3,"mask":m,"opt":1,"comp":1} for m in (2,5)]})
 H.append({"name":"H_skip","tiers":Q,"bounds":"hand-built optimized patch over an old container of 2051 files: skipped bsdiff series with symbolic TargetIndex in [0,2050] and symbolic 64-bit Seek; next file whitelisted","param_sets":[{}]})
-H.append({"name":"H_whitelist","tiers":T,"scale":"b2","bounds":"old sizes in {(0,1),(2,2),(5,3),(4,5)}; all subsets; plain and optimized","max_seconds":1500,
-  "param_sets":[{"ka":a,"kb":b,"mask":m,"opt":o} for (a,b) in ((0,1),(2,2),(5,3),(4,5)) for m in range(16) for o in (0,1)]})
+H.append({"name":"H_whitelist","tiers":T,"scale":"b2","bounds":"old sizes in {(0,1),(2,2),(5,3),(4,5)}; all subsets; plain, and optimized for the two smaller size pairs","max_seconds":900,
+  "param_sets":[{"ka":a,"kb":b,"mask":m,"opt":o} for (a,b) in ((0,1),(2,2),(5,3),(4,5)) for m in range(16) for o in (0,1) if not (o==1 and a>=4)]})
 json.dump({"property":"C17","package":"c17","scale":scale,"harnesses":H,
  "stubs":["os -> memfs, md5/protobuf (tag-faithful: cross-type decoding of BsdiffHeader/Control as SyncOp is real) models","recording bowl / recording pool written in the harness"],
  "outside":["compression settings other than NONE","new builds other than the 4-file shape"]},open("config.json","w"),indent=1)
